@@ -19,6 +19,7 @@ type Val struct {
 	Ptr   *PtrInfo      // non-nil for every pointer value the engine created itself
 	Fn    *ssa.Function // statically known function / closure
 	Binds []Val         // closure bindings
+	Glob  *ssa.Global   // pointer to this package-level variable
 	Known *Val          // for interfaces: the statically known boxed value (from MakeInterface), if any
 }
 
@@ -221,7 +222,7 @@ func (e *Engine) strLit(s string) *smt.Term {
 }
 
 func (e *Engine) strLen(s *smt.Term) *smt.Term {
-	return e.C.App("str.len", smt.BV(64), s)
+	return e.C.App("gs.len", smt.BV(64), s)
 }
 
 func isSigned(t types.Type) bool {
